@@ -53,6 +53,15 @@ namespace sim
 
   SchedParams random_sched(Rng &rng, int ntasks_hint);
 
+  struct Slot
+  {
+    bool alive = false;
+    const WorldInfo *w = nullptr;
+    std::string path;
+    std::vector<ProbePoint> used;
+  };
+  void fill_query(Op &op, const WorldInfo &w, Slot &slot, Rng &rng, bool allow_invalid, bool allow_grains);
+
   bool gen_c01(uint64_t seed, uint64_t run, const std::string &tier, Scenario &s);
   bool gen_c07(uint64_t seed, uint64_t run, const std::string &tier, Scenario &s);
   bool gen_c12(uint64_t seed, uint64_t run, const std::string &tier, Scenario &s);
